@@ -18,9 +18,13 @@ type modSet struct {
 	all   bool            // unknown effects: everything
 	alloc bool
 	cellParams bool       // writes through pointer parameters (which may point to caller locals)
+	allocKeys  map[string]bool // heap maps in which objects allocated by this code may live (fresh entries)
+	allocAll   bool
 }
 
-func newModSet() *modSet { return &modSet{cells: map[*ssa.Alloc]bool{}, heap: map[string]bool{}} }
+func newModSet() *modSet {
+	return &modSet{cells: map[*ssa.Alloc]bool{}, heap: map[string]bool{}, allocKeys: map[string]bool{}}
+}
 
 func (m *modSet) addAll(o *modSet) {
 	for k := range o.heap {
@@ -34,6 +38,12 @@ func (m *modSet) addAll(o *modSet) {
 	}
 	if o.cellParams {
 		m.cellParams = true
+	}
+	for k := range o.allocKeys {
+		m.allocKeys[k] = true
+	}
+	if o.allocAll {
+		m.allocAll = true
 	}
 }
 
@@ -149,20 +159,31 @@ func (vc *VC) blockMods(fn *ssa.Function, blocks map[*ssa.BasicBlock]bool, seen 
 				t := x.Type().Underlying().(*types.Pointer).Elem()
 				if _, ok := structOf(t); ok {
 					heapKeysOfStore("", t, ms.heap)
+					heapKeysOfStore("", t, ms.allocKeys)
 				} else {
 					ms.cells[x] = true
+					if at, isArr := t.Underlying().(*types.Array); isArr && !isBasicInt(at.Elem()) {
+						heapKeysOfStore(elemMapKey(at.Elem()), at.Elem(), ms.heap)
+						heapKeysOfStore(elemMapKey(at.Elem()), at.Elem(), ms.allocKeys)
+					} else if x.Heap {
+						heapKeysOfStore(memMapKey(t), t, ms.allocKeys)
+					}
 				}
 			case *ssa.MakeSlice:
 				ms.alloc = true
 				et := x.Type().Underlying().(*types.Slice).Elem()
 				heapKeysOfStore(elemMapKey(et), et, ms.heap)
+				heapKeysOfStore(elemMapKey(et), et, ms.allocKeys)
 			case *ssa.MakeMap:
 				ms.alloc = true
 				mt := x.Type().Underlying().(*types.Map)
 				ms.heap[mapKey(mt)+"#dom"] = true
+				ms.allocKeys[mapKey(mt)+"#dom"] = true
+				ms.allocKeys[mapKey(mt)+"#val"] = true
 			case *ssa.MakeClosure, *ssa.MakeInterface, *ssa.Slice, *ssa.Convert:
 				ms.alloc = true
 				ms.heap["E$uint8"] = true
+				ms.allocKeys["E$uint8"] = true
 			case *ssa.Range:
 				ms.heap["$visited"] = true
 			case *ssa.Next:
@@ -186,6 +207,10 @@ func (vc *VC) callMods(caller *ssa.Function, call ssa.CallInstruction, ms *modSe
 		case "append":
 			st := c.Args[0].Type().Underlying().(*types.Slice)
 			heapKeysOfStore(elemMapKey(st.Elem()), st.Elem(), ms.heap)
+			heapKeysOfStore(elemMapKey(st.Elem()), st.Elem(), ms.allocKeys)
+			if _, isStruct := structOf(st.Elem()); isStruct {
+				heapKeysOfStore("", st.Elem(), ms.allocKeys)
+			}
 		case "copy":
 			if st, ok := c.Args[0].Type().Underlying().(*types.Slice); ok {
 				heapKeysOfStore(elemMapKey(st.Elem()), st.Elem(), ms.heap)
@@ -222,6 +247,9 @@ func (vc *VC) callMods(caller *ssa.Function, call ssa.CallInstruction, ms *modSe
 		// call of a function value: a closure made in this function is scanned, anything else is unknown
 		if mc, ok := c.Value.(*ssa.MakeClosure); ok {
 			callee = mc.Fn.(*ssa.Function)
+		} else if nt, isNamed := c.Value.Type().(*types.Named); isNamed && nt.Obj().Pkg() != nil && vc.E.DB.Contracts[nt.Obj().Pkg().Path()+".("+nt.Obj().Name()+").call"] != nil {
+			vc.contractMods(vc.E.DB.Contracts[nt.Obj().Pkg().Path()+".("+nt.Obj().Name()+").call"], ms)
+			return
 		} else {
 			// look through a local cell holding a closure: give up precisely
 			vc.unknownCallMods(c, ms)
@@ -234,6 +262,8 @@ func (vc *VC) callMods(caller *ssa.Function, call ssa.CallInstruction, ms *modSe
 	key := FuncKey(callee)
 	if vc.E.intrinsic(key) != nil {
 		vc.E.intrinsic(key).mods(vc, c, ms)
+		ms.allocKeys["M$uint256.Int"] = true
+		ms.allocKeys["E$uint8"] = true
 		return
 	}
 	if ct := vc.E.DB.Contracts[key]; ct != nil && !ct.Inline {
@@ -344,11 +374,28 @@ func (vc *VC) contractMods(ct *Contract, ms *modSet) {
 	if len(ct.Allocates) > 0 {
 		ms.alloc = true
 	}
+	for _, tn := range ct.Allocates {
+		if t, ok := vc.E.resolveTypeName(ct.Pkg, tn); ok {
+			if _, isStruct := structOf(t); isStruct {
+				heapKeysOfStore("", t, ms.allocKeys)
+			} else if sl, isSlice := t.Underlying().(*types.Slice); isSlice {
+				heapKeysOfStore(elemMapKey(sl.Elem()), sl.Elem(), ms.allocKeys)
+			} else if mt, isMap := t.Underlying().(*types.Map); isMap {
+				ms.allocKeys[mapKey(mt)+"#dom"] = true
+				ms.allocKeys[mapKey(mt)+"#val"] = true
+			} else {
+				heapKeysOfStore(memMapKey(t), t, ms.allocKeys)
+			}
+		}
+	}
+	// results that are references may be fresh objects of their type even without an allocates clause
+	ms.allocKeys["M$uint256.Int"] = true
 }
 
 // unknownCallMods: a call with neither contract nor body. Everything type-reachable from its
 // pointer arguments may change; for calls into repository interfaces, everything.
 func (vc *VC) unknownCallMods(c *ssa.CallCommon, ms *modSet) {
+	ms.allocAll = true
 	seen := map[types.Type]bool{}
 	args := append([]ssa.Value{}, c.Args...)
 	if c.IsInvoke() {
@@ -544,6 +591,9 @@ func (vc *VC) enterLoop(fr *frame, li *loopInfo, st *State) *State {
 				if !known || !strings.HasPrefix(string(srt), "(Array") || strings.HasPrefix(k, "ghost$") {
 					continue
 				}
+				if !ms.all && !ms.allocAll && !ms.allocKeys[k] {
+					continue // no object of this map's type is allocated in the loop: the precise havoc above is exact
+				}
 				cur := vc.heapGet(st, k, srt) // already havocked at locs
 				nm := vc.P.Fresh(k+"@"+what, srt)
 				vc.qSeq++
@@ -659,7 +709,7 @@ func (vc *VC) loopFrame(fr *frame, li *loopInfo, st *State, head *State) {
 		} else {
 			vc.qSeq++
 			r := p.Var(fmt.Sprintf("r?%d", vc.qSeq), SInt)
-			ex := []*Term{p.Gt(r, aHead), p.Eq(r, p.Int(0))}
+			ex := []*Term{p.Gt(r, aHead), p.Eq(r, p.Int(0)), p.And(p.Lt(r, p.Int(0)), p.Gt(p.App("rootof", SInt, r), aHead))}
 			for _, l := range ls {
 				ex = append(ex, p.Eq(r, l.idx[0]))
 			}
